@@ -756,6 +756,25 @@ func init() {
 			}
 			return r, true
 		},
+		"strings.Count": func(e *Exec, a []Value) (Value, bool) {
+			s, sub := a[0].(Str), a[1].(Str)
+			if isC(s) && isC(sub) {
+				return ci(strings.Count(s.Conc(), sub.Conc())), true
+			}
+			if sub.Len() == 0 {
+				return ci(len(e.decodeRunes(s)) + 1), true
+			}
+			n, from := 0, 0
+			for {
+				i := e.indexStr(s, sub, from)
+				if i < 0 {
+					break
+				}
+				n++
+				from = i + sub.Len()
+			}
+			return ci(n), true
+		},
 		"strings.Index": func(e *Exec, a []Value) (Value, bool) {
 			return ci(e.indexStr(a[0].(Str), a[1].(Str), 0)), true
 		},
@@ -1139,10 +1158,24 @@ func init() {
 		},
 		"math.Round": func(e *Exec, a []Value) (Value, bool) {
 			x := a[0].(Float)
-			if x.S != nil {
-				panic(unsupported("math.Round symbolic"))
+			if x.S == nil {
+				return Float{W: 64, C: math.Round(x.C)}, true
 			}
-			return Float{W: 64, C: math.Round(x.C)}, true
+			if e.mode == ModeBV {
+				rt := e.def(Sort{K: SFP, W: 64}, "(fp.roundToIntegral RNA "+x.S.Name+")")
+				rt.Int = true
+				if x.S.RBnd {
+					rt.RLo, rt.RHi, rt.RBnd = math.Round(x.S.RLo), math.Round(x.S.RHi), true
+				}
+				return Float{W: 64, S: rt}, true
+			}
+			// relaxed reals: round half away from zero = floor(x + 1/2) for x >= 0
+			if !(x.S.RBnd && x.S.RLo >= 0) {
+				panic(unsupported("math.Round on a possibly negative symbolic real"))
+			}
+			half := e.def(Sort{K: SReal}, "(+ "+x.S.Name+" 0.5)")
+			half.RLo, half.RHi, half.RBnd = x.S.RLo+0.5, x.S.RHi+0.5, true
+			return e.floatFloor(Float{W: 64, S: half}), true
 		},
 		"math.Ceil": func(e *Exec, a []Value) (Value, bool) {
 			x := a[0].(Float)
